@@ -146,6 +146,60 @@ MUTANTS = {
 """,
         "then/else bodies exchanged when the then body has more than three nodes",
     ),
+    # --- round 4 of held-out classes
+    "G1-loop-invariant-hoisting": (
+        "src/spox/_build.py",
+        """        graph_scope_set: Dict[Any, Set[Node]] = {ctx: set() for ctx in self.graphs}
+        for node, owner in self.scope_tree.scope_of.items():
+""",
+        """        changed = True
+        while changed:  # hoist loop invariants out of iterated bodies
+            changed = False
+            for node, g in list(self.scope_tree.scope_of.items()):
+                owner = self.scope_tree.subgraph_owner.get(g)
+                if owner is None or owner.op_type.identifier not in ("Loop", "Scan", "SequenceMap"):
+                    continue
+                if isinstance(node, Argument) or node is self.source_of[g] or list(node.subgraphs):
+                    continue
+                if all(
+                    self.scope_tree.scope_of.get(d._op) is not g
+                    or (isinstance(d._op, Argument) and d not in self.arguments_of[g])
+                    for d in node.dependencies
+                ):
+                    self.scope_tree.scope_of[node] = self.scope_tree.parent(g)
+                    changed = True
+        graph_scope_set: Dict[Any, Set[Node]] = {ctx: set() for ctx in self.graphs}
+        for node, owner in self.scope_tree.scope_of.items():
+""",
+        "loop-invariant hoisting: a node in a Loop/Scan body none of whose inputs is defined in that body moves to the enclosing scope (evaluated once, unconditionally)",
+    ),
+    "H1-nodeproto-memo-without-input-names": (
+        [
+            ("src/spox/_node.py",
+             """        node_proto = onnx.helper.make_node(
+            self.op_type.identifier,
+            input_names,
+""",
+             """        _memo = Node.__dict__.get("_MEMO")
+        if _memo is None:
+            _memo = {}
+            Node._MEMO = _memo
+        _key = (id(self), scope.node[self], tuple(output_names))
+        if _key in _memo and not any(isinstance(a, AttrGraph) for a in self.attrs.get_fields().values()):
+            return [_memo[_key][1]]
+        node_proto = onnx.helper.make_node(
+            self.op_type.identifier,
+            input_names,
+"""),
+            ("src/spox/_node.py",
+             """        return [node_proto]
+""",
+             """        _memo[_key] = (self, node_proto)
+        return [node_proto]
+"""),
+        ],
+        "NodeProto memo in Node.to_onnx keyed by node name + output names (not the input names): a later build of the same Node object with differently named inputs reuses the old wiring",
+    ),
     # --- round 3 of held-out classes
     "E1-process-wide-pool-of-serialised-attributes": (
         "src/spox/_attributes.py",
